@@ -103,16 +103,10 @@ Mutated(j, m) == IF m.lvl = "none" THEN j ELSE MutAt(j, PathOf(m.lvl), m)
 
 \* ---- the property --------------------------------------------------------------------------------------------
 OnDisk == origin # "builtin"
-\* declaratively: the shapes the published schema admits (the recorded defects are the complement)
-SchemaSections == SectionKinds \ {"functions", "classes", "modules", "deprecated", "admonition"}
-CleanSchema ==
-  /\ CleanEncode
-  /\ \A i \in 1..Len(MkChain) :
-       LET o == MkChain[i]
-       IN /\ (o.doc.present => o.doc.lineno = "int")                 \* "lineno": {"type": "integer"} of docstrings
-          /\ (o.kind = "module" => o.filepath = "path")              \* "filepath": {"type": "string"}
-          /\ (o.kind = "alias" => o.alineno = "int")                 \* alias alternative: "lineno" is required
-          /\ \A k \in 1..Len(Parsed(o.doc)) : Parsed(o.doc)[k] \in SchemaSections
+\* declaratively: the shapes the published schema admits.  Since the schema was brought in line with the dumps
+\* (docstring.lineno integer|null, filepath string|array|null, alias lineno optional, all section kinds, object
+\* section values) every document Encode produces conforms; what remains is that the full dump must EXIST.
+CleanSchema == CleanEncode
 SInDomain == CASE SDomain = "clean" -> CleanSchema [] SDomain = "defect" -> ~CleanSchema [] OTHER -> TRUE
 
 \* a handful of base documents for the probes: one per kind, every optional sub-record present
